@@ -610,8 +610,130 @@ def scan_prims(name: str, fn: ast.FunctionDef, cls, attrs, fparams: dict | None 
                     break
         if dimkw is not None:
             add_axes(1, "call:" + last, dimkw, n)
+    _control_flow_rows(fn, cx, fparams, add)
     rows.sort(key=lambda r: (r[6], r[1], r[2]))
     return [r[:6] for r in rows]
+
+
+# family 8 — shape- or mode-dependent control flow.  form 0: `if` / conditional expression whose test reads `self.training`;
+# 1: whose test reads a tensor extent (`.shape`, `.size(…)`, `len(…)`, `.numel()` or a name computed from one); 2: a loop over
+# `range(…)` whose bounds do arithmetic on an extent (`n // K`, `n - 1`, a step): a partial / chunked iteration; 3: a loop over
+# a full extent (`range(x.size(d))`).  args = what the guarded region does: 1 a reduction, 2 a call into /repo/direct (method of
+# the module or a known function), 4 a slice / narrow / split / select with computed bounds at the batch or coil position,
+# 8 an accumulation (`x = x + …`, `x += …`), 32 building a Python list, 64 a slice at a later (spatial) position.
+def _control_flow_rows(fn, cx: "FnCtx", fparams, add):
+    extent_names: set[str] = set(cx.batch_names) | set(cx.other_shape_names)
+
+    def is_extent_expr(node) -> bool:
+        rank_only = set()          # `len(x.shape)`, `len(x.shape[1:])`, `x.dim()`: the rank, not an extent
+        for s in ast.walk(node):
+            if isinstance(s, ast.Call) and isinstance(s.func, ast.Name) and s.func.id == "len" and s.args and ".shape" in ast.unparse(s.args[0]):
+                for t in ast.walk(s):
+                    rank_only.add(id(t))
+        for s in ast.walk(node):
+            if id(s) in rank_only:
+                continue
+            if isinstance(s, ast.Attribute) and s.attr == "shape":
+                return True
+            if isinstance(s, ast.Call) and isinstance(s.func, ast.Attribute) and s.func.attr in ("size", "numel", "nelement"):
+                return True
+            if isinstance(s, ast.Call) and isinstance(s.func, ast.Name) and s.func.id == "len":
+                return True
+            if isinstance(s, ast.Name) and s.id in extent_names:
+                return True
+        return False
+
+    changed = True
+    while changed:
+        changed = False
+        for st in ast.walk(fn):
+            if isinstance(st, ast.Assign) and len(st.targets) == 1 and _scalar_like(st.value) and is_extent_expr(st.value):
+                t = st.targets[0]
+                names = [t] if isinstance(t, ast.Name) else [e for e in t.elts if isinstance(e, ast.Name)] if isinstance(t, (ast.Tuple, ast.List)) else []
+                for nm in names:
+                    if nm.id not in extent_names:
+                        extent_names.add(nm.id)
+                        changed = True
+
+    def reads_mode(node) -> bool:
+        return any(isinstance(s, ast.Attribute) and s.attr == "training" for s in ast.walk(node))
+
+    def region_codes(stmts) -> list[int]:
+        codes = set()
+        for st in stmts:
+            for n in ast.walk(st):
+                if isinstance(n, ast.Call) and isinstance(n.func, ast.Attribute):
+                    base = n.func.value
+                    if isinstance(base, ast.Name) and base.id == "self":
+                        codes.add(2)
+                    elif n.func.attr in REDUCE and not (isinstance(base, ast.Name) and base.id in ("np", "math", "numpy")):
+                        codes.add(1)
+                    elif n.func.attr in REDUCE_HELPERS:
+                        codes.add(1)
+                    elif n.func.attr in ("append", "extend", "insert"):
+                        codes.add(32)
+                    elif n.func.attr in ("narrow", "split", "chunk", "tensor_split", "select", "index_select", "unbind"):
+                        dim = _call_axis_arg(n, _is_torch_ns(base), ALONG.get(n.func.attr, 0))
+                        kind, ax = cx.axes(dim) if dim is not None else (0, [0])
+                        codes.add(4 if (kind != 0 or any(a in (0, 1) for a in ax)) else 64)
+                    elif n.func.attr in fparams:
+                        codes.add(2)
+                elif isinstance(n, ast.Call) and isinstance(n.func, ast.Name):
+                    if n.func.id in REDUCE_HELPERS:
+                        codes.add(1)
+                    elif n.func.id in fparams:
+                        codes.add(2)
+                if isinstance(n, ast.Subscript) and isinstance(n.slice, ast.Tuple) and not ast.unparse(n.value).endswith(".shape"):
+                    for pos, el in enumerate(n.slice.elts):
+                        full = isinstance(el, ast.Slice) and el.lower is None and el.upper is None and el.step is None
+                        const = isinstance(el, ast.Constant)
+                        if full or const:
+                            continue
+                        if isinstance(el, ast.Name) and pos >= 2 and not isinstance(n.ctx, ast.Store):
+                            codes.add(64)
+                        else:
+                            codes.add(4 if pos <= 1 else 64)
+                if isinstance(n, ast.AugAssign) and isinstance(n.op, (ast.Add, ast.Sub)):
+                    codes.add(8)
+                if isinstance(n, ast.Assign) and len(n.targets) == 1 and isinstance(n.targets[0], ast.Name) \
+                        and isinstance(n.value, ast.BinOp) and isinstance(n.value.op, (ast.Add, ast.Sub)):
+                    t = n.targets[0].id
+                    if any(isinstance(sd, ast.Name) and sd.id == t for sd in (n.value.left, n.value.right)):
+                        codes.add(8)
+        return sorted(codes)
+
+    for n in ast.walk(fn):
+        if isinstance(n, (ast.If, ast.While)):
+            mode, size = reads_mode(n.test), is_extent_expr(n.test)
+            if mode or size:
+                add(8, ("if-training" if mode else "if-size") if isinstance(n, ast.If) else "while-size", 0 if mode else 1,
+                    region_codes(list(n.body) + list(n.orelse)), n)
+        elif isinstance(n, ast.IfExp):
+            mode, size = reads_mode(n.test), is_extent_expr(n.test)
+            if mode or size:
+                add(8, "ifexp-training" if mode else "ifexp-size", 0 if mode else 1,
+                    region_codes([ast.Expr(n.body), ast.Expr(n.orelse)]), n)
+        elif isinstance(n, (ast.For, ast.comprehension)):
+            it = n.iter
+            if isinstance(it, ast.Call) and isinstance(it.func, ast.Name) and it.func.id == "range" and any(is_extent_expr(a) for a in it.args):
+                partial = len(it.args) == 3 or any(
+                    is_extent_expr(a) and any(isinstance(s, ast.BinOp) for s in ast.walk(a)) for a in it.args)
+                body = list(n.body) if isinstance(n, ast.For) else []
+                node = n if isinstance(n, ast.For) else it
+                add(8, "loop-chunked" if partial else "loop-full", 2 if partial else 3, region_codes(body), node)
+
+
+def _scalar_like(v) -> bool:
+    """an expression that can only be a Python number / bool / size (not a tensor): built from extents, literals, attributes
+    of self, comparisons and integer arithmetic"""
+    for s in ast.walk(v):
+        if isinstance(s, ast.Call):
+            f = s.func
+            ok = (isinstance(f, ast.Attribute) and f.attr in ("size", "numel", "nelement", "dim")) or \
+                 (isinstance(f, ast.Name) and f.id in ("len", "int", "min", "max", "range", "list", "tuple"))
+            if not ok:
+                return False
+    return True
 
 
 # ---------------------------------------------------------------------------------------------------------------------
